@@ -11,3 +11,11 @@ chk("C01", "exploration", "property-based testing (Hypothesis): generated handle
     "nesting/interleaving, depth-first order and exactly-once, subtree-complete callbacks. Search, not proof.",
     "Handlers never raise; <= 40 posts and <= 30 live registrations per case; queue events are C02's.",
     "DESIGN.md §4 C01, appendix A.1")
+chk("C13", "exploration", "property-based testing (Hypothesis): operation histories vs. online reference models on a jittered virtual clock",
+    "Generated histories on DelayManager (machine- and mode-owned), clock intervals and a generated timer device run on "
+    "a virtual loop whose wake-ups are late by generated amounts; an online reference model validates every callback/"
+    "tick/complete event (exactly once, stored kwargs, deadline window [d, d+J], none after remove/replace/mode stop, "
+    "check() truthful after every operation and inside callbacks, k-th tick at s+k*I without drift). Search, not proof.",
+    "Lateness <= 4 ms per wake-up; coincidences within 1 us are left open; timer notifications other than tick/complete "
+    "are not asserted.",
+    "DESIGN.md §4 C13")
